@@ -314,3 +314,12 @@ CHECKS["C04"]["rule"] += ("; plus mode 'enum': run r is the r-th sequence (short
 CHECKS["C06"]["batches"].append(
     {"family": "hist", "mode": "enum", "cfgs": {"quick": ["G"], "thorough": ["B", "G"]},
      "runs": {"quick": 14424, "thorough": 346200}})
+
+# the string-length limit seen from the allocator's side (a too-long string must not strand its buffer)
+CHECKS["C06"]["batches"].append(
+    {"family": "xfer", "mode": "limits", "cfgs": {"quick": ["A", "B", "D", "F"], "thorough": ["A", "B", "C", "D", "F", "G", "I"]},
+     "runs": {"quick": 60, "thorough": 600}})
+# wrong tokens and over-long numeric literals are also a memory-safety matter
+CHECKS["C03"]["batches"].append(
+    {"family": "xfer", "mode": "token", "cfgs": {"quick": ["A", "B"], "thorough": ALL_CFGS},
+     "runs": {"quick": 6000, "thorough": 100000}})
